@@ -156,7 +156,9 @@ def run(ctx):
         name = f"c14cli{i}"
         d = common.install_ruleset(spec, name)
         for fl in (['--skip_brute'], ['--all_lower'], ['--skip_brute', '--all_lower']):
-            sess = f"c14s{i}{len(fl)}{fl[0][2]}"
+            # one session name for the three flag settings, one after the other: the save file of the previous setting is still there
+            # when the next new session starts - what it holds must not decide anything
+            sess = f"c14s{i}"
             o1, e1, rc1 = common.run_cli('pcfg_guesser.py', ['-r', name, '-s', sess] + fl, stdin='pipe-open')
             o2, e2, rc2 = common.run_cli('pcfg_guesser.py', ['-s', sess, '--load'], stdin='pipe-open')
             cli_runs += 2
@@ -203,6 +205,10 @@ def replay(ctx, payload):
             out.append({'kind': 'skip-brute', 'got': got, 'want': want})
     elif 'cli' in w:
         d = common.install_ruleset(w['spec'], 'replay14')
+        for fl0 in (['--skip_brute'], ['--all_lower'], ['--skip_brute', '--all_lower'], []):
+            if fl0 != w['cli']:     # a save file of the same session name left by a run with another setting
+                common.run_cli('pcfg_guesser.py', ['-r', 'replay14', '-s', 'replay14'] + fl0, stdin='pipe-open')
+                break
         o1, _, _ = common.run_cli('pcfg_guesser.py', ['-r', 'replay14', '-s', 'replay14'] + w['cli'], stdin='pipe-open')
         o2, _, _ = common.run_cli('pcfg_guesser.py', ['-s', 'replay14', '--load'], stdin='pipe-open')
         if o1 != o2:
